@@ -18,6 +18,7 @@ import (
 
 func init() {
 	vRegister("HarnessC02Sync", HarnessC02Sync)
+	vRegister("HarnessC02Forward", HarnessC02Forward)
 }
 
 // c02Points: an arbitrary subset of the identities (v,0), (w,0) (and (u,0)
@@ -219,4 +220,80 @@ func HarnessC02Sync() {
 		}
 	}
 	vCover("c02: done")
+}
+
+// HarnessC02Forward — while the link is up, a write accepted upstream for a
+// synchronised node (node points or edge points) is forwarded downstream by
+// the subscriptions subscribeRemoteNode sets up, so both sides again hold the
+// same newest point per identity. (The opposite direction lives inside the
+// timer-driven Run loop and is outside the claim.)
+func HarnessC02Forward() {
+	ncL, ncR := vConnNoEcho(), vConnNoEcho()
+	t0 := vInstant(19886, 0, 0, 0)
+	live := data.Point{Type: data.PointTypeTombstone, Key: "0", Time: t0}
+	shared := c02Points("S") // what both sides hold for the child before the write
+	local := []data.NodeEdge{
+		{ID: "d", Parent: "root", Type: data.NodeTypeDevice, EdgePoints: data.Points{live}},
+		{ID: "c", Parent: "d", Type: "x", Points: append(data.Points{}, shared...), EdgePoints: data.Points{live}},
+	}
+	remote := []data.NodeEdge{
+		{ID: "rootR", Parent: "root", Type: data.NodeTypeDevice, EdgePoints: data.Points{live}},
+		{ID: "d", Parent: "rootR", Type: data.NodeTypeDevice, EdgePoints: data.Points{live}},
+		{ID: "c", Parent: "d", Type: "x", Points: append(data.Points{}, shared...), EdgePoints: data.Points{live}},
+	}
+	srvL := vServeNodes(ncL, "d", local)
+	srvR := vServeNodes(ncR, "rootR", remote)
+	up := &SyncClient{
+		nc: ncL, ncLocal: ncL, ncRemote: ncR,
+		rootLocal:           data.NodeEdge{ID: "d", Parent: "root", Type: data.NodeTypeDevice},
+		config:              Sync{ID: "sync", Parent: "d"},
+		subRemoteNodePoints: map[string]*nats.Subscription{},
+		subRemoteEdgePoints: map[string]*nats.Subscription{},
+	}
+	err := up.subscribeRemoteNode("root", "d")
+	vAssert(err == nil, "subscribing to the upstream copies of the local nodes succeeds")
+
+	// a client writes upstream
+	target := []string{"d", "c"}[vChoose(2)]
+	p := data.Point{Type: []string{"v", "w", "n"}[vChoose(3)], Key: "0", Time: vInstant(19886, vRange(0, 3), 0, 0), Value: vF64(), Text: "U"}
+	vAssume(p.Value == p.Value)
+	for _, q := range shared {
+		if target == "c" && q.Type == p.Type {
+			vAssume(!q.Time.Equal(p.Time))
+		}
+	}
+	edge := target == "c" && vBool()
+	if edge {
+		vCover("c02 forward: edge point")
+		p.Type = "role"
+		err = SendEdgePoint(ncR, "c", "d", p, true)
+	} else {
+		vCover("c02 forward: node point")
+		err = SendNodePoint(ncR, target, p, true)
+	}
+	vAssert(err == nil, "the upstream write is acknowledged")
+	// the same message as every other subscriber of the upstream bus sees it
+	// (the engine's bus delivers to subscriptions only on vPublish; natively
+	// this is a harmless re-delivery)
+	fwd := data.Points{p}
+	payload, perr := fwd.ToPb()
+	vAssume(perr == nil)
+	if edge {
+		vPublish(ncR, "p.c.d", payload)
+	} else {
+		vPublish(ncR, "p."+target, payload)
+	}
+
+	parentOf := map[string]string{"d": "root", "c": "d"}
+	parentUp := map[string]string{"d": "rootR", "c": "d"}
+	gl, gr := srvL.query(parentOf[target], target, "", true), srvR.query(parentUp[target], target, "", true)
+	vAssert(len(gl) == 1 && len(gr) == 1, "the node exists on both sides")
+	if edge {
+		le, okL := c02Find(gl[0].EdgePoints, "role", "0")
+		re, okR := c02Find(gr[0].EdgePoints, "role", "0")
+		vAssert(okL && okR && le.Value == re.Value && le.Time.Equal(re.Time) && le.Text == re.Text, "an edge point accepted upstream reaches the downstream instance")
+	} else {
+		vAssert(c02SamePoints(gl[0].Points, gr[0].Points), "after forwarding both sides hold the same newest point per identity")
+	}
+	vCover("c02 forward: done")
 }
